@@ -63,6 +63,11 @@ func init() {
 			one := spg.CharRecipe{Length: 1, Allow: f} // a variable, so that the call compiles whatever the receiver kind
 			parts = append(parts, fmt.Sprintf("class%d=%s", uint32(f), hxs(one.Alphabet())))
 		}
+		for _, f := range []spg.CTFlag{spg.Uppers, spg.Lowers, spg.Digits, spg.Symbols, spg.Ambiguous} {
+			one := spg.CharRecipe{Length: 1, Allow: spg.All, Exclude: f}
+			parts = append(parts, fmt.Sprintf("allminus%d=%s", uint32(f), hxs(one.Alphabet())))
+		}
+		parts = append(parts, fmt.Sprintf("newcharalphabet=%s", hxs(spg.NewCharRecipe(11).Alphabet())))
 		parts = append(parts, fmt.Sprintf("flags=%d,%d,%d,%d,%d,%d,%d,%d", uint32(spg.Uppers), uint32(spg.Lowers), uint32(spg.Digits), uint32(spg.Symbols),
 			uint32(spg.Ambiguous), uint32(spg.Letters), uint32(spg.All), uint32(spg.None)))
 		cr := spg.NewCharRecipe(17)
